@@ -75,7 +75,7 @@ def drive(kind: str, case: dict, inject: Dict[int, Tuple[str, str, str]], max_st
     cfg = rig.tap1_cfg(case) if kind == "tap1" else rig.tap3_cfg(case)
     v = case["v"]
     trace: List[tuple] = []
-    out = {"trace": trace, "nonidle": 0, "final": None, "raise": None, "problems": []}
+    out = {"trace": trace, "nonidle": 0, "final": None, "raise": None, "problems": [], "rejected": None}
     with rig.patched_rng() as pr:
         d = pr.fresh(v)
         d.sched, d.k = [case.get("d0", 0)], case.get("startIdx", 0)
@@ -84,7 +84,10 @@ def drive(kind: str, case: dict, inject: Dict[int, Tuple[str, str, str]], max_st
         try:
             agent = rig._agent_from(cfg)
         except Exception as e:
-            out["raise"] = {"phase": "constructor", **exc_info(e)}
+            if rejected_at_load(e):
+                out["rejected"] = f"{type(e).__name__}: {str(e).splitlines()[0][:120] if str(e) else ''}"
+            else:
+                out["raise"] = {"phase": "constructor", **exc_info(e)}
             return out
         k = 0
         prev = (None, None)
@@ -175,7 +178,7 @@ def sweep(kind: str, rng: Rng, thorough: bool, n_quick_cfg: int, n_pairs_quick: 
     configurations whose index is i modulo n (the sweep of the thorough tier is spread over several worker processes)."""
     raises: List[dict] = []
     hist: Dict[str, int] = {}
-    cases = steps = 0
+    cases = steps = rejected = 0
     not_succeeding: List[str] = []
     max_steps = 90
     cfgs = configs(kind, rng, thorough, n_quick_cfg)
@@ -189,6 +192,9 @@ def sweep(kind: str, rng: Rng, thorough: bool, n_quick_cfg: int, n_pairs_quick: 
             end = next((i for i, x in enumerate(base["trace"]) if x[4] in ("SUCCEEDED", "FAILED")), len(base["trace"]) - 1)
             base = drive(kind, case, {}, min(max_steps, end + 1 + max(8, end // 2)))
         label = {k: case[k] for k in case if k not in ("steps", "agent", "d0", "start", "f", "v", "startIdx")}
+        if base.get("rejected"):
+            rejected += 1
+            continue
         if base["raise"]:
             raises.append({"agent": kind, "case": case, "inject": {}, **base["raise"]})
             continue
@@ -239,31 +245,37 @@ def sweep(kind: str, rng: Rng, thorough: bool, n_quick_cfg: int, n_pairs_quick: 
             hist[f"{kind}:trial-failures"] = hist.get(f"{kind}:trial-failures", 0) + 1
             if r["raise"]:
                 raises.append({"agent": kind, "case": c, "inject": {}, "us": us, **r["raise"]})
-    return {"cases": cases, "steps": steps, "hist": hist, "raises": raises, "notes": not_succeeding, "configs": len(cfgs)}
+    return {"cases": cases, "steps": steps, "hist": hist, "raises": raises, "notes": not_succeeding, "configs": len(cfgs), "rejected": rejected}
 
 
 # ------------------------------------------------------------------------------------------------ family (a)
-def in_domain(case: dict) -> bool:
-    """C19's generator of `well-formed` cases is well-formed for C19 (its model raises where the code raises).  C01's obligation is
-    about configurations a scenario could sensibly carry: a TAP003 whose network knowledge COVERS what it is told to attack, for the
-    start node that was drawn - every account-change host other than the start node and every ACL router has credentials with an
-    `ip_address`, the start node has credentials, and no ACL router is the start node itself.  (Otherwise TAP003 raises
-    KeyError('ip_address') in _manipulation / _exploit: an incomplete scenario file, reported as an observation in the design note,
-    not as a violation.)"""
-    if case.get("agent") != "tap3":
-        return True
-    sn = case.get("startNodes") or []
-    start = int(sn[case.get("startIdx", 0)][4:]) if sn else 0
-    creds = {h: bool(ip) for h, ip in case["creds"]}
-    if start not in creds:
-        return False
-    for h in case["accts"]:
-        if h != start and not creds.get(h, False):
-            return False
-    for r in case["acls"]:
-        if r == start or not creds.get(r, False):
-            return False
-    return True
+def construct_only(case: dict) -> Optional[BaseException]:
+    """Build the agent of a C19 case the way C19's driver does and return the exception of the CONSTRUCTOR (None if it builds)."""
+    kind = rig.kind_of(case)
+    if kind == "tap1":
+        cfg = rig.tap1_cfg(case)
+    elif kind == "tap3":
+        cfg = rig.tap3_cfg(case)
+    elif kind == "periodic":
+        cfg = rig.periodic_cfg(case)
+    else:
+        return None
+    with rig.patched_rng() as pr:
+        d = pr.fresh(case.get("sv", case.get("v", 0)) if kind == "periodic" else case.get("v", 0))
+        d.sched, d.k = [case.get("d0", 0)], case.get("startIdx", 0)
+        d.kmap = [(cfg["agent_settings"].get("starting_nodes") or [], case.get("startIdx", 0)),
+                  (cfg["agent_settings"].get("target_ips") or [], case.get("targetIdx", 0))]
+        try:
+            rig._agent_from(cfg)
+        except Exception as e:
+            return e
+    return None
+
+
+def rejected_at_load(e: BaseException) -> bool:
+    """A configuration the agent constructor / schema refuses with a ValueError (pydantic's ValidationError is one) never becomes an
+    environment: outside C01's domain (counted in the evidence, not a raise of the agent)."""
+    return isinstance(e, ValueError)
 
 
 def c19_family(kind: str, rng: Rng, n: int) -> dict:
@@ -289,9 +301,6 @@ def c19_family(kind: str, rng: Rng, n: int) -> dict:
     try:
         for k in range(n):
             case = rig.gen_case(rng, kind, malformed=False)
-            if not in_domain(case):
-                skipped += 1
-                continue
             del caught[:]
             try:
                 impl, _, problems = rig.run_impl(case)
@@ -302,8 +311,15 @@ def c19_family(kind: str, rng: Rng, n: int) -> dict:
             cases += 1
             steps += len(impl)
             if any(l.startswith("raised") for l in impl):
-                info = caught[0] if caught else {"phase": "constructor", "exc": "?", "msg": "", "where": "?"}
-                raises.append({"agent": kind, "case": case, **info})
+                if caught:
+                    raises.append({"agent": kind, "case": case, **caught[0]})
+                else:      # C19's driver swallows the constructor's exception: build the agent again to see what it was
+                    e = construct_only(case)
+                    if e is not None and rejected_at_load(e):
+                        skipped += 1
+                    else:
+                        raises.append({"agent": kind, "case": case, "phase": "constructor",
+                                       **(exc_info(e) if e is not None else {"exc": "?", "msg": "raised line without an exception", "where": "?"})})
             for pb in problems:
                 if "cannot be formed into a request" in pb:
                     raises.append({"agent": kind, "case": case, "phase": "format_request", "exc": "Unformattable", "msg": pb[:200], "where": "format_request"})
